@@ -717,11 +717,17 @@ def correspond(ctx):
 
         def one(it):
             return run_impl(binary, it[1])
-        with concurrent.futures.ThreadPoolExecutor(max_workers=4) as ex:
-            impl = list(ex.map(one, items))
-        mod = run_model(model, [sc for _, sc in items], gcmode)
+        def batches():
+            # batch by batch, so that the outputs of tens of thousands of schedules are never all in memory
+            for b in range(0, len(items), 1000):
+                part = items[b:b + 1000]
+                with concurrent.futures.ThreadPoolExecutor(max_workers=4) as ex:
+                    impl = list(ex.map(one, part))
+                mod = run_model(model, [sc for _, sc in part], gcmode)
+                for x in zip(part, impl, mod):
+                    yield x
         n_runs += len(items)
-        for (name, sc), (rc, ilines), mlines in zip(items, impl, mod):
+        for (name, sc), (rc, ilines), mlines in batches():
             exp = norm_expected(ORACLE.run(sc, gcmode, NSLOTS))
             mlines = norm_expected(mlines)
             ncmd = sum(1 for l in ilines if l.startswith("> "))
